@@ -149,8 +149,14 @@ class Path:
                 "ret": repr(self.ret)[:200]}
 
 
+_INT_IMPL = re.compile(r"::<impl ([ui](?:8|16|32|64|128|size))>::(\w+)$")
+
+
 def short(path):
     from .absint import strip_generics
+    m = _INT_IMPL.search(path)
+    if m and re.search(r"_bytes$", m.group(2)):
+        return "%s::%s" % (m.group(1), m.group(2))        # u16::to_be_bytes: the width is the array length
     p = strip_generics(path)
     if p.startswith("<") and ">::" in p:
         # <X as Trait>::method -> method name only, with the self type's last segment
